@@ -265,6 +265,8 @@ class World:
     def step(self, st):
         op = st["op"]
         self.soap_sent = []
+        if op == "advance":
+            self.now += st["dt"]
         with S.clock(self.now):
             out = getattr(self, "op_" + op)(st)
             obs = self.observe()
@@ -272,7 +274,6 @@ class World:
         return {"out": out, "obs": obs}
 
     def op_advance(self, st):
-        self.now += st["dt"]
         return {"r": "ok"}
 
     def op_login(self, st):
@@ -283,49 +284,45 @@ class World:
         irt = "id-authn-%d" % self.seq
         sess = S.fmt_time(st["sess"]) if st.get("sess") is not None else None
         kind = st["kind"]
-        kw = {}
-        if kind == "encrypted":
-            kw = {"encrypt_assertion": True, "encrypt_cert_assertion": open(S.cert_path("sp_enc1")).read()}
         resp = idp.create_authn_response(
             identity, irt, S.SP_ACS_POST, S.SP_ID, name_id=self.nids[st["s"]],
             authn={"class_ref": "urn:oasis:names:tc:SAML:2.0:ac:classes:Password", "authn_auth": IDP_IDS[j]},
-            sign_response=False, sign_assertion=False, session_not_on_or_after=sess, **kw)
+            sign_response=False, sign_assertion=False, session_not_on_or_after=sess)
         xml = str(resp)
-        if kind != "encrypted":
-            cond = st.get("cond")
-            if kind == "expired":
-                cond = self.now - 10
+        # the Response is unsigned: expiry, session index and the defects of the invalid kinds are edited in
+        cond = st.get("cond")
+        if kind == "expired":
+            cond = self.now - 10
 
-            def fix_cond(m):
-                tag = re.sub(r'\s+NotOnOrAfter="[^"]*"', "", m.group(0))
-                if cond is not None:
-                    tag = tag[:-1] + ' NotOnOrAfter="%s">' % S.fmt_time(cond)
-                return tag
+        def fix_cond(m):
+            tag = re.sub(r'\s+NotOnOrAfter="[^"]*"', "", m.group(0))
+            if cond is not None:
+                tag = tag[:-1] + ' NotOnOrAfter="%s">' % S.fmt_time(cond)
+            return tag
 
-            xml, n1 = re.subn(r"<(\w+:)?Conditions\b[^>]*>", fix_cond, xml, count=1)
-            sidx = st.get("sidx")
-            xml, n2 = re.subn(r'\s+SessionIndex="[^"]*"', "" if sidx is None else ' SessionIndex="si-%d"' % sidx, xml, count=1)
-            if n1 != 1 or n2 != 1:
-                raise RuntimeError("harness: cannot rewrite the Response produced by Server")
-            if kind == "audience":
-                xml = xml.replace("Audience>%s<" % S.SP_ID, "Audience>%s<" % S.SP2_ID)
-            elif kind == "destination":
-                xml = xml.replace('Destination="%s"' % S.SP_ACS_POST, 'Destination="https://evil.example/acs"')
+        xml, n1 = re.subn(r"<(\w+:)?Conditions\b[^>]*>", fix_cond, xml, count=1)
+        sidx = st.get("sidx")
+        xml, n2 = re.subn(r'\s+SessionIndex="[^"]*"', "" if sidx is None else ' SessionIndex="si-%d"' % sidx, xml, count=1)
+        if n1 != 1 or n2 != 1:
+            raise RuntimeError("harness: cannot rewrite the Response produced by Server")
+        if kind == "audience":
+            xml = xml.replace("Audience>%s<" % S.SP_ID, "Audience>%s<" % S.SP2_ID)
+        elif kind == "destination":
+            xml = xml.replace('Destination="%s"' % S.SP_ACS_POST, 'Destination="https://evil.example/acs"')
         try:
             r = self.sp.parse_authn_request_response(base64.b64encode(xml.encode("utf-8")).decode("ascii"),
                                                      S.BINDING_POST, outstanding={irt: "/"})
         except Exception:  # only the real call is inside this try; pysaml2 raises plain Exception for a foreign audience
             return {"r": "rejected"}
-        if r is None:
-            return {"r": "rejected"}
-        return {"r": "identity" if r.name_id is not None else "none"}
+        # "identity produced" = an AuthnResponse object carrying a subject came back
+        return {"r": "accepted" if r is not None and r.name_id is not None else "rejected"}
 
     def op_identity(self, st):
         ents = [IDP_IDS[j] for j in st["ents"]] or None
         try:
             ava, old = self.sp.users.get_identity(self.nids[st["s"]], ents, st["check"])
         except KeyError:
-            return {"r": "error", "e": "key"}
+            return {"r": "error", "e": "key", "soap": []}
         return {"r": "identity", "ava": _canon_ava(ava), "old": [self.idp_index(e) for e in old]}
 
     def op_info(self, st):
@@ -334,9 +331,9 @@ class World:
         try:
             info = self.sp.users.get_info_from(self.nids[st["s"]], IDP_IDS[st["i"]], st["check"])
         except KeyError:
-            return {"r": "error", "e": "key"}
+            return {"r": "error", "e": "key", "soap": []}
         except TooOld:
-            return {"r": "error", "e": "tooold"}
+            return {"r": "error", "e": "tooold", "soap": []}
         if info is None:
             return {"r": "empty"}
         si = info.get("session_index")
@@ -349,7 +346,7 @@ class World:
         try:
             r = self.sp.users.stale_sources_for_person(self.nids[st["s"]], srcs)
         except KeyError:
-            return {"r": "error", "e": "key"}
+            return {"r": "error", "e": "key", "soap": []}
         return {"r": "stale", "l": [self.idp_index(e) for e in r]}
 
     def op_reset(self, st):
@@ -478,7 +475,7 @@ class World:
             out = self.sp.handle_logout_request(wire, self.nids[st["current"]], BIND[b], sign=False, relay_state="rs")
         except SAMLError as e:
             if type(e) is SAMLError:  # "No supported bindings found to create LogoutResponse"
-                return {"r": "error", "e": "noresponse"}
+                return {"r": "error", "e": "noresponse", "soap": []}
             raise
         xml, dest = _message_of(out, "SAMLResponse")
         root = _find(ET.fromstring(xml), "{%s}LogoutResponse" % SAMLP)
@@ -498,3 +495,195 @@ def _canon_ava(ava):
 def run_impl(case):
     w = World(case["cfg"], case["now0"])
     return {"steps": [w.step(st) for st in case["steps"]]}
+
+
+# ------------------------------------------------------------------ generators
+
+_BIND_CHOICES = [("redirect", "ok")] * 7 + [("post", "ok")] * 6 + [("soap", "ok")] * 3 + [("soap", "http500")] + \
+    [("soap", "denied")] + [("none", "ok")] * 2
+
+
+def _idp_cfg(b, soap="ok"):
+    d = {"b": b}
+    if b == "soap":
+        d["soap"] = soap
+    return d
+
+
+def gen_history(rng, max_len=40, nosoap=False):
+    n_idp = rng.choice([1, 2, 2, 3, 3])
+    n_subj = rng.choice([1, 2, 2, 3])
+    binds = []
+    for _ in range(n_idp):
+        b, m = rng.choice(_BIND_CHOICES)
+        if nosoap and b == "soap":
+            b = rng.choice(["redirect", "post"])
+        binds.append(_idp_cfg(b, m))
+    subjects = rng.sample(range(len(NAMEID_POOL)), n_subj)
+    now = S.NOW0
+    marks = []  # instants worth hitting exactly: expiry times and logout deadlines
+    logged = set()
+    steps = []
+    n = rng.randint(4, max_len)
+    weights = [("login", 22), ("badlogin", 3), ("identity", 10), ("info", 8), ("stale", 5), ("advance", 10),
+               ("logout", 12), ("resp", 22), ("slo", 7), ("reset", 1)]
+    ops = [o for o, w in weights for _ in range(w)]
+
+    def subj():
+        if logged and rng.random() < 0.75:
+            return rng.choice(sorted(logged))
+        return rng.randrange(n_subj)
+
+    while len(steps) < n:
+        op = rng.choice(ops)
+        if op in ("login", "badlogin"):
+            s, i = rng.randrange(n_subj), rng.randrange(n_idp)
+            sess = None if rng.random() < 0.45 else now + rng.choice([0, 1, 5, 30, 100, 600])
+            cond = None if rng.random() < 0.12 else now + rng.choice([0, 1, 10, 50, 300, 900])
+            if rng.random() < 0.08:
+                ava = []
+            else:
+                ava = [[a, sorted(rng.sample(range(10), rng.randint(1, 3)))]
+                       for a in sorted(rng.sample(range(len(ATTRS)), rng.randint(1, 3)))]
+            kind = "ok" if op == "login" else rng.choice(["audience", "expired", "destination"])
+            steps.append({"op": "login", "s": s, "i": i, "cond": cond, "sess": sess, "ava": ava,
+                          "sidx": None if rng.random() < 0.15 else rng.randrange(100), "kind": kind})
+            if kind == "ok":
+                logged.add(s)
+                marks.extend(x for x in (sess, cond) if x is not None)
+        elif op == "identity":
+            ents = [] if rng.random() < 0.5 else sorted(rng.sample(range(n_idp), rng.randint(1, n_idp)))
+            steps.append({"op": "identity", "s": subj(), "ents": ents, "check": rng.random() < 0.8})
+        elif op == "info":
+            steps.append({"op": "info", "s": subj(), "i": rng.randrange(n_idp), "check": rng.random() < 0.75})
+        elif op == "stale":
+            srcs = [] if rng.random() < 0.5 else sorted(rng.sample(range(n_idp), rng.randint(1, n_idp)))
+            steps.append({"op": "stale", "s": subj(), "srcs": srcs})
+        elif op == "advance":
+            future = [m for m in marks if m >= now]
+            if future and rng.random() < 0.5:
+                dt = rng.choice(future) - now + rng.choice([0, 1])
+            else:
+                dt = rng.choice([1, 5, 10, 30, 60, 100, 301, 900])
+            if dt > 0:
+                now += dt
+                steps.append({"op": "advance", "dt": dt})
+        elif op == "logout":
+            exp = None if rng.random() < 0.2 else now + rng.choice([-50, -1, 0, 1, 60, 300])
+            if exp is not None:
+                marks.append(exp)
+            steps.append({"op": "logout", "s": subj(), "expire": exp})
+        elif op == "resp":
+            r = rng.random()
+            sel = "pending" if r < 0.72 else "dup" if r < 0.86 else "unknown"
+            steps.append({"op": "resp", "sel": sel, "n": rng.randrange(6),
+                          "issuer": -1 if rng.random() < 0.8 else rng.randrange(n_idp)})
+        elif op == "slo":
+            cur = subj()
+            named = cur if rng.random() < 0.5 else rng.randrange(n_subj)
+            steps.append({"op": "slo", "named": named, "current": cur, "b": rng.choice(["redirect", "post", "soap"]),
+                          "i": rng.randrange(n_idp)})
+        else:
+            steps.append({"op": "reset", "s": rng.randrange(n_subj), "i": rng.randrange(n_idp)})
+    return {"now0": S.NOW0, "cfg": {"idps": binds, "subjects": subjects}, "steps": steps}
+
+
+def directed_cases():
+    """Small-scope part: every pair of single-logout set-ups for two identity providers, the standard
+    logout flow with the answers delivered in both orders, a duplicate, before and after the deadline."""
+    N = S.NOW0
+    kinds = [("redirect", "ok"), ("post", "ok"), ("soap", "ok"), ("soap", "http500"), ("soap", "denied"), ("none", "ok")]
+
+    def login(s, i, sidx):
+        return {"op": "login", "s": s, "i": i, "cond": N + 900, "sess": None, "ava": [[0, [s]], [1, [i, 7]]],
+                "sidx": sidx, "kind": "ok"}
+
+    for k0 in kinds:
+        for k1 in kinds:
+            cfg = {"idps": [_idp_cfg(*k0), _idp_cfg(*k1)], "subjects": [0, 1]}
+            for order in (0, 1):
+                for late in (False, True):
+                    steps = [login(0, 0, 1), login(0, 1, 2), login(1, 0, 3),
+                             {"op": "logout", "s": 0, "expire": N + 100},
+                             {"op": "identity", "s": 0, "ents": [], "check": True}]
+                    if late:
+                        steps.append({"op": "advance", "dt": 101})
+                    steps += [{"op": "resp", "sel": "pending", "n": order, "issuer": -1},
+                              {"op": "resp", "sel": "dup", "n": 0, "issuer": -1},
+                              {"op": "identity", "s": 0, "ents": [], "check": True},
+                              {"op": "resp", "sel": "pending", "n": 0, "issuer": -1},
+                              {"op": "identity", "s": 0, "ents": [], "check": True},
+                              {"op": "identity", "s": 1, "ents": [], "check": True},
+                              login(0, 1, 4),
+                              {"op": "resp", "sel": "pending", "n": 0, "issuer": -1},
+                              {"op": "info", "s": 0, "i": 1, "check": True}]
+                    yield {"now0": N, "cfg": cfg, "steps": steps}
+
+
+def gen_cases(rng, tier):
+    for c in directed_cases():
+        yield c
+    n = 450 if tier == "quick" else 14000
+    for k in range(n):
+        yield gen_history(rng, 40, nosoap=(k % 3 == 0))
+
+
+# ------------------------------------------------------------------ verdict helpers
+
+SOAP_KEY = "C19/soap-answer-not-counted"
+
+
+def compare(case, impl, model):
+    return impl == model
+
+
+def finding_key(case, impl, lean):
+    """The one known root cause: `do_logout` does not count an answer received over SOAP (it neither ends
+    the session when every involved identity provider has answered nor takes the provider off the shared
+    list).  The key is given only when (a) the first violated clause is `session-not-ended-after-soap-answer`,
+    (b) the very same clauses hold on this trace once SOAP answers are not counted, and (c) model and
+    implementation agree on the whole trace."""
+    why = lean.get("why") or ""
+    first = why.split(";")[0]
+    if (first.endswith(":session-not-ended-after-soap-answer") and lean.get("spec_impl_code") is True
+            and impl == lean.get("model")
+            and any(d["b"] == "soap" and d.get("soap", "ok") == "ok" for d in case["cfg"]["idps"])):
+        return SOAP_KEY
+    return None
+
+
+def nontrivial(case, impl, lean):
+    return lean.get("path") not in (None, "quiet")
+
+
+def shrink(case):
+    steps = case["steps"]
+    for k in range(1, len(steps)):
+        yield dict(case, steps=steps[:k])
+    for k in range(len(steps)):
+        yield dict(case, steps=steps[:k] + steps[k + 1:])
+    idps = case["cfg"]["idps"]
+    for j, d in enumerate(idps):
+        if d["b"] != "redirect":
+            yield dict(case, cfg=dict(case["cfg"], idps=idps[:j] + [{"b": "redirect"}] + idps[j + 1:]))
+
+
+def neighbours(case, rng):
+    """Around a disagreement: every prefix, and the history with one step left out."""
+    for c in shrink(case):
+        yield c
+
+
+def distribution(recs):
+    paths = {}
+    lens = {}
+    cfgs = {}
+    for r in recs:
+        for p in r["lean"].get("paths", []):
+            paths[p] = paths.get(p, 0) + 1
+        b = "%02d-%02d" % (len(r["case"]["steps"]) // 10 * 10, len(r["case"]["steps"]) // 10 * 10 + 9)
+        lens[b] = lens.get(b, 0) + 1
+        k = ",".join(d["b"] + (":" + d["soap"] if d["b"] == "soap" else "") for d in r["case"]["cfg"]["idps"])
+        cfgs[k] = cfgs.get(k, 0) + 1
+    return {"step_paths": dict(sorted(paths.items())), "steps_total": sum(paths.values()),
+            "history_length": dict(sorted(lens.items())), "idp_setups": dict(sorted(cfgs.items()))}
